@@ -302,6 +302,78 @@ def check_rebase(ctx, out, rule="C03.rebase"):
     out.inst(rule, n, 4, ["start/end: line += row; character += column iff line == 1 (tested before the row shift)"])
 
 
+CHILD_API = r"tree_sitter::Node::<'tree>::(children|named_children|child|named_child|child_by_field_name|child_by_field_id|children_by_field_name|children_by_field_id|next_sibling|next_named_sibling|prev_sibling|prev_named_sibling|descendant_for_byte_range|named_descendant_for_byte_range|walk)$"
+
+
+def check_treewalk(ctx, out, rule="C03.walk"):
+    """Every node of the syntax tree is offered to the comment visitor. (A) The cursor walk descends
+    unconditionally: `goto_first_child` is tried first and is not control-dependent on a node kind or
+    on the visitor's answer; after every successful cursor move the current node is visited. (B) Queries
+    are run from the tree's root. (C) No hand-written recursion over `Node::children()` that descends
+    only into chosen kinds (nodes nested in other containers would never be seen)."""
+    n = 0
+    samples = []
+    lp = [b for b in ctx.reachable_bodies() if b.promoted is None and b.id.startswith("blockwatch::language_parsers") or "language_parsers::" in b.id and b.promoted is None and b.id in ctx.reach]
+    for b in lp:
+        cfg = cfg_of(b)
+        E = ctx.expr(b)
+        moves = [(bi, t) for bi, t in b.calls() if callee_matches(t, r"tree_sitter::TreeCursor::<'cursor>::goto_(first_child|next_sibling)$")]
+        if moves:
+            def visits(c):
+                cb = ctx.facts.body(c.get("res") or "")
+                return cb is not None and any(callee_matches(t2, r"tree_sitter::TreeCursor::<'cursor>::node$") for _, t2 in cb.calls())
+            for bi, t in moves:
+                nm = callee_name(t).split("::")[-1]
+                if nm == "goto_first_child":
+                    h = cfg.innermost_loop(bi)
+                    inloop = cfg.loops()[h] if h is not None else set(range(cfg.n))
+                    for br, vals, e in util.guards(ctx, b, bi):
+                        # a `return Some(comment)` before the loop only suspends the walk: the next
+                        # call resumes at the loop head, which descends first
+                        if br not in inloop:
+                            continue
+                        txt = render(e, 400)
+                        if re.search(r"Node::kind|comment_from_current_node|node_visitor|is_named|child_count", txt):
+                            out.viol(rule, "%s|%s|conditional-descent" % (rule, b.id), ctx.where(b, t["span"]),
+                                     "the tree walk descends into a node's children only under `%s`: comments nested below other nodes are never visited" % txt[:140])
+                            break
+                    else:
+                        n += 1
+                sw = cfg.succ[bi][0] if cfg.succ[bi] else None
+                tt = b.blocks[sw]["term"] if sw is not None else None
+                if not tt or tt["k"] != "switch":
+                    out.viol(rule, "%s|%s|%s|unchecked-move" % (rule, b.id, nm), ctx.where(b, t["span"]), "the result of `%s` is not branched on" % nm)
+                    continue
+                arms = util.switch_arms(b, sw)
+                moved = arms["otherwise"] if 0 in arms else arms.get(1)
+                x = util.skip_trivial(b, moved)
+                t2 = b.blocks[x]["term"]
+                if t2 and t2["k"] == "call" and visits(t2):
+                    n += 1
+                    samples.append("%s->visit" % nm)
+                else:
+                    out.viol(rule, "%s|%s|%s|unvisited" % (rule, b.id, nm), ctx.where(b, t["span"]),
+                             "after a successful `%s` the node the cursor arrived at is not offered to the comment visitor" % nm)
+        for bi, t in b.calls():
+            if callee_matches(t, r"tree_sitter::QueryCursor::(matches|captures)$"):
+                labs = ctx.prov.read_operand(b, t["args"][2])
+                if P.has_call(labs, r"tree_sitter::Tree::root_node$"):
+                    n += 1
+                    samples.append("query@root")
+                else:
+                    out.viol(rule, "%s|%s|query-not-root" % (rule, b.id), ctx.where(b, t["span"]), "the tree-sitter query is not run from the tree's root node: matches outside that node are not found")
+            if callee_matches(t, CHILD_API):
+                recursive = b.id in ctx.cg.reachable([x for x in ctx.cg.edges.get(b.id, ())] if hasattr(ctx.cg, "edges") else [])
+                if not hasattr(ctx.cg, "edges"):
+                    recursive = any((t3.get("res") or "") == b.id for _, t3 in b.calls())
+                kinds = [util.const_val(ctx, b, a) for _, t3 in b.calls() if callee_matches(t3, r"PartialEq.*>::eq$|<impl str>::eq$") for a in t3["args"]]
+                uses_kind = any(callee_matches(t3, r"tree_sitter::Node::<'tree>::kind(_id)?$") for _, t3 in b.calls())
+                if recursive and uses_kind:
+                    out.viol(rule, "%s|%s|partial-recursion" % (rule, b.id), ctx.where(b, t["span"]),
+                             "`%s` walks the tree by hand with `%s` and chooses by node kind where to descend: nodes of the wanted kind that are nested inside other containers (list items, block quotes, ...) are never reached; use a query from the root or descend into every child" % (b.name, callee_name(t).split("::")[-1]))
+    out.inst(rule, n, 5, samples[:6], note="cursor moves followed by a visit; unconditional descent; queries from the root")
+
+
 def check_order(ctx, out):
     n = 0
     from rules.C12 import pairing_fn
@@ -327,6 +399,7 @@ def run(ctx, out, tier):
     check_content(ctx, out)
     check_rebase(ctx, out)
     check_order(ctx, out)
+    check_treewalk(ctx, out)
     # a comment is only found if the file is parsed with its own language's grammar (shared with C16),
     # and a tag inside a multi-line comment is placed by the last newline before it (shared with C10)
     from rules.C16 import check_grammar, extract_table
